@@ -57,6 +57,7 @@ class Taint:
         ps = init.call_params()
         ctx.require(len(ps) >= 2, 'anchor vanished: Configuration.__init__(my_addresses, conf_dict)')
         self.tainted[init.qual] = {ps[1]}
+        self.rec_fields = set()
         for f in self.funcs:
             self.tainted.setdefault(f.qual, set())
             self.refined[f.qual] = self._guards(f)
@@ -94,6 +95,12 @@ class Taint:
             return self.is_tainted(fi, e.body) or self.is_tainted(fi, e.orelse)
         if isinstance(e, ast.Call) and isinstance(e.func, ast.Attribute) and e.func.attr in DICT_METHODS:
             return self.is_tainted(fi, e.func.value)
+        if isinstance(e, ast.Attribute) and e.attr in getattr(self, 'rec_fields', ()) and not (
+                isinstance(e.value, ast.Name) and fi is not None and e.value.id == fi.self_name):
+            # a field of a configuration record that is filled with an untyped value as it came (the connection name)
+            return True
+        if isinstance(e, (ast.GeneratorExp, ast.ListComp, ast.SetComp)):
+            return self.is_tainted(fi, e.elt)
         if isinstance(e, ast.Call) and isinstance(e.func, ast.Name) and e.func.id in COPIES and e.args:
             # the same untyped values in another container / order
             return self.is_tainted(fi, e.args[0])
@@ -111,6 +118,11 @@ class Taint:
                 t = self.tainted[fi.qual]
                 before = len(t)
                 for n in walk_no_nested(fi.node):
+                    if isinstance(n, ast.Call) and isinstance(n.func, ast.Name) and n.func.id[:1].isupper() and n.func.id.endswith('Configuration'):
+                        for kw in n.keywords:
+                            if kw.arg and self.is_tainted(fi, kw.value) and kw.arg not in self.rec_fields:
+                                self.rec_fields.add(kw.arg)
+                                changed = True
                     if isinstance(n, ast.Assign) and self.is_tainted(fi, n.value):
                         for tg in n.targets:
                             for x in ast.walk(tg):
@@ -178,6 +190,10 @@ class Taint:
                 and not any(kw.arg == 'key' for kw in x.keywords):
             # YAML keys and values of one mapping can be of different types (1: and "a":): ordering them compares int with str
             out.append(('TypeError', 'ordering untyped configuration values: %s' % src(x)[:60], x))
+        if isinstance(x, ast.Call) and isinstance(x.func, ast.Attribute) and x.func.attr == 'join' and len(x.args) == 1 \
+                and isinstance(x.func.value, ast.Constant) and isinstance(x.func.value.value, (str, bytes)) and self.is_tainted(fi, x.args[0]):
+            # str.join takes strings only: a connection named `1:` or `~:` in the YAML is an int / None
+            out.append(('TypeError', 'joining untyped configuration values as text: %s' % src(x)[:60], x))
         if isinstance(x, ast.Call) and ((isinstance(x.func, ast.Attribute) and x.func.attr == 'sort' and self.is_tainted(fi, x.func.value))):
             out.append(('TypeError', 'ordering untyped configuration values: %s' % src(x)[:60], x))
         if isinstance(x, ast.Call):
